@@ -859,12 +859,16 @@ class BackendZ3(Backend):
 
     def _add(self, s, c, track=False):
         if track:
-            already_tracked = {str(impl.children()[0]) for impl in s.assertions()}
+            already_tracked = {str(impl.children()[0]): impl.children()[1] for impl in s.assertions()}
             for constraint in c:
                 name = str(hash(constraint))
+                # Z3's 32-bit AST hash collides (x + y == 643 and x + y == 3839 share one): only the same *formula*
+                # is already tracked, a different one under the same name gets a name of its own
+                while name in already_tracked and not already_tracked[name].eq(constraint):
+                    name += "'"
                 if name not in already_tracked:
                     s.assert_and_track(constraint, name)
-                    already_tracked.add(name)
+                    already_tracked[name] = constraint
         else:
             s.add(*c)
 
